@@ -399,18 +399,21 @@ def run_infinite(case, npz):
     return out
 
 
-def with_range(H, tag, how='ctor'):
+def with_range(H, tag, how='ctor', plus_hc=False):
     """the same W tensors with the documented meta-data `max_range` known (as computed from the terms), unknown (None,
-    an MPO given by its W tensors) or np.inf (a valid upper bound)"""
+    an MPO given by its W tensors) or np.inf (a valid upper bound); with plus_hc the documented flag `explicit_plus_hc` is set:
+    the W tensors store one half, the MPO denotes (W product) + h.c."""
     from tenpy.networks.mpo import MPO
-    if tag == 'known':
+    if tag == 'known' and not plus_hc:
         return H
-    mr = None if tag == 'none' else np.inf
+    mr = H.max_range if tag == 'known' else (None if tag == 'none' else np.inf)
     if how == 'wflat' and H.sites[0].leg.chinfo.qnumber == 0:
         Wflat = [H.get_W(i, copy=True).itranspose(['p', 'p*', 'wL', 'wR']).to_ndarray() for i in range(H.L)]
-        return MPO.from_Wflat(H.sites, Wflat, H.bc, IdL=list(H.IdL), IdR=list(H.IdR), max_range=mr, unit_cell_width=H.unit_cell_width)
+        H2 = MPO.from_Wflat(H.sites, Wflat, H.bc, IdL=list(H.IdL), IdR=list(H.IdR), max_range=mr, unit_cell_width=H.unit_cell_width)
+        H2.explicit_plus_hc = bool(plus_hc)           # (documented attribute; from_Wflat has no such argument)
+        return H2
     return MPO(H.sites, [H.get_W(i, copy=True) for i in range(H.L)], H.bc, list(H.IdL), list(H.IdR), mr,
-               mps_unit_cell_width=H.unit_cell_width)
+               explicit_plus_hc=bool(plus_hc), mps_unit_cell_width=H.unit_cell_width)
 
 
 def run_results(case, npz):
@@ -513,37 +516,144 @@ def run_results(case, npz):
     for a, b in case['compare']:
         if a in res and b in res:
             rec.run('is_equal:%s:%s' % (a, b), lambda a=a, b=b: out['is_equal'].__setitem__(a + ':' + b, bool(res[a].is_equal(res[b]))))
+    if case.get('hc'):
+        run_hc(case, rec, sites, bc, N, psi, kind)
     np.savez(npz, **rec.mats)
     out['errors'] = rec.errors
     out['npz'] = npz
     return out
 
 
+def run_hc(case, rec, sites, bc, N, psi, kind):
+    """operands P, Q with the flag explicit_plus_hc drawn independently (stored half + flag vs. operator written in full), Hermitian
+    and non-Hermitian: every routine that reads the flag, for both operand orders; raw answers only"""
+    hc = case['hc']
+    finite = bc == 'finite'
+    oh = rec.out['hc'] = {'operands': {}, 'pairs': {}, 'add': {}}
+    Hs = {}
+    for name in ('P', 'Q'):
+        spec = hc[name]
+        o = oh['operands'][name] = {}
+
+        def mk(name=name, spec=spec, o=o):
+            H0 = build_from_terms(sites, spec['terms'], bc)
+            H = with_range(H0, spec['range'], spec.get('how', 'ctor'), plus_hc=spec['plus_hc'])
+            H.test_sanity()
+            Hs[name] = H
+            o['flag'] = bool(H.explicit_plus_hc)
+            o['max_range'] = None if H.max_range is None else ('inf' if H.max_range == np.inf else float(H.max_range))
+            rec.mats['HC/' + name] = contract_mpo(H, N)
+        rec.run('hc_make:' + name, mk)
+        if name not in Hs:
+            continue
+        H = Hs[name]
+        rec.run('hc_is_hermitian:' + name, lambda H=H, o=o: o.__setitem__('is_hermitian', bool(H.is_hermitian())))
+
+        def dag(H=H, o=o, name=name):
+            D = H.dagger()
+            D.test_sanity()
+            o['dagger_flag'] = bool(D.explicit_plus_hc)
+            rec.mats['HC/dagger/' + name] = contract_mpo(D, N)
+        rec.run('hc_dagger:' + name, dag)
+        rec.run('hc_expectation_value:' + name, lambda H=H, o=o: o.__setitem__('expectation_value', cnum(H.expectation_value(psi))))
+        if finite:
+            def var(H=H, o=o):
+                try:
+                    o['variance'] = cnum(H.variance(psi))
+                except NotImplementedError:
+                    o['variance_raises'] = 'NotImplementedError'
+            rec.run('hc_variance:' + name, var)
+            rec.run('hc_ExactDiag:' + name, lambda H=H, name=name: rec.mats.__setitem__('HC/ed/' + name, _ed(H, N)))
+        else:
+            rec.run('hc_expectation_value_TM:' + name,
+                    lambda H=H, o=o: o.__setitem__('expectation_value_TM', cnum(H.expectation_value_TM(psi))))
+            rec.run('hc_expectation_value_power:' + name,
+                    lambda H=H, o=o: o.__setitem__('expectation_value_power', cnum(H.expectation_value_power(psi))))
+        if spec.get('prefactors'):
+            rec.run('hc_prefactor:' + name,
+                    lambda H=H, o=o, spec=spec: o.__setitem__('prefactors', [cnum(H.prefactor(i, ops)) for i, ops in spec['prefactors']]))
+    for a, b in (('P', 'Q'), ('Q', 'P'), ('P', 'P'), ('Q', 'Q')):
+        if a not in Hs or b not in Hs:
+            continue
+        o = oh['pairs'][a + ':' + b] = {}
+        A, B = Hs[a], Hs[b]
+        rec.run('hc_overlap:%s:%s' % (a, b),
+                lambda A=A, B=B, o=o: o.__setitem__('overlap', cnum(A.overlap(B, understood_infinite=True, num_sites=N))))
+        rec.run('hc_distance:%s:%s' % (a, b),
+                lambda A=A, B=B, o=o: o.__setitem__('distance', cnum(A.distance(B, understood_infinite=True, num_sites=N))))
+        rec.run('hc_is_equal:%s:%s' % (a, b), lambda A=A, B=B, o=o: o.__setitem__('is_equal', bool(A.is_equal(B))))
+    for a, b in (('P', 'Q'), ('Q', 'P')):
+        if a not in Hs or b not in Hs:
+            continue
+        o = oh['add'][a + ':' + b] = {}
+
+        def add(a=a, b=b, o=o):
+            try:
+                S = Hs[a] + Hs[b]
+            except ValueError as e:
+                o['raises'] = 'ValueError: ' + str(e)[:120]
+                return
+            S.test_sanity()
+            o['flag'] = bool(S.explicit_plus_hc)
+            rec.mats['HC/add/%s:%s' % (a, b)] = contract_mpo(S, N)
+            o['is_hermitian'] = bool(S.is_hermitian())
+            o['is_equal_rev'] = bool(S.is_equal(Hs[b] + Hs[a]))
+        rec.run('hc_add:%s:%s' % (a, b), add)
+
+
 def run_propagator(case, npz):
-    from tenpy.networks.mpo import MPOGraph
+    """make_U_I / make_U_II at dt, dt/2, dt/4 of a finite chain (contracted over the whole chain and, for case['window'] = [a, n], from
+    the IdL marker left of site a to the IdR marker right of site a + n - 1) or of an infinite MPO on a window of N sites.
+    case['form']: 'single' (one MPOGraph), 'sum' (A + B by MPO.__add__: the IdR markers of the result are -1), 'negmarkers'
+    (the same W tensors, IdR markers given as negative indices)"""
+    from tenpy.networks.mpo import MPO
     rec = Rec()
     out = rec.out
     L = case['L']
+    bc = case.get('bc', 'finite')
+    N = L if bc == 'finite' else case['N']
     sites = [make_site(case['site'])] * L
-    H = build_from_terms(sites, case['A']['terms'], 'finite')
-    rec.mats['H'] = contract_mpo(H, L)
+    form = case.get('form', 'single')
+    terms = case['A']['terms']
+    if form == 'sum':
+        nB = case['split']
+        H = build_from_terms(sites, terms[:nB], bc) + build_from_terms(sites, terms[nB:], bc)
+    else:
+        H = build_from_terms(sites, terms, bc)
+        if form == 'negmarkers':
+            dims = [H.get_W(i).get_leg('wL').ind_len for i in range(L)] + [H.get_W(L - 1).get_leg('wR').ind_len]
+            H = MPO(sites, [H.get_W(i, copy=True) for i in range(L)], bc, list(H.IdL), [int(x) - int(c) for x, c in zip(H.IdR, dims)],
+                    H.max_range, mps_unit_cell_width=H.unit_cell_width)
+    H.test_sanity()
+    rec.mats['H'] = contract_mpo(H, N)
     for op in sites[0].opnames:
         rec.mats['op/' + op] = sites[0].get_op(op).to_ndarray()
     out['L'] = L
-    out['dims'] = [sites[0].dim] * L
+    out['N'] = N
+    out['dims'] = [sites[0].dim] * N
     out['needs_JW'] = {op: bool(sites[0].op_needs_JW(op)) for op in sites[0].opnames}
+    out['H_IdL'] = [None if x is None else int(x) for x in H.IdL]
+    out['H_IdR'] = [None if x is None else int(x) for x in H.IdR]
+    out['U_markers'] = {}
+    win = case.get('window')
     for which in ('I', 'II'):
         for n, dt in enumerate(case['dts']):
             def mk(which=which, n=n, dt=dt):
                 U = H.make_U(cplx(dt), which)
-                rec.mats['U%s_%d' % (which, n)] = contract_mpo(U, L)
+                U.test_sanity()
+                out['U_markers']['%s_%d' % (which, n)] = [[None if x is None else int(x) for x in U.IdL], [None if x is None else int(x) for x in U.IdR]]
+                rec.mats['U%s_%d' % (which, n)] = contract_mpo(U, N)
+                if win:
+                    rec.mats['Uw%s_%d' % (which, n)] = contract_mpo(U, win[1], first=win[0])
             rec.run('make_U_%s_%d' % (which, n), mk)
 
             def mk2(which=which, n=n, dt=dt):
                 # documented second-order scheme of ExpMPOEvolution: two complex sub-steps (1 +- i)/2 dt
                 U1 = H.make_U(cplx(dt) * (1. + 1j) / 2., which)
                 U2 = H.make_U(cplx(dt) * (1. - 1j) / 2., which)
-                rec.mats['U%so2_%d' % (which, n)] = contract_mpo(U2, L) @ contract_mpo(U1, L)
+                rec.mats['U%so2_%d' % (which, n)] = contract_mpo(U2, N) @ contract_mpo(U1, N)
+                if win:
+                    rec.mats['Uw%so2_%d' % (which, n)] = contract_mpo(U2, win[1], first=win[0]) @ contract_mpo(U1, win[1], first=win[0])
             rec.run('make_U_%s_order2_%d' % (which, n), mk2)
     np.savez(npz, **rec.mats)
     out['errors'] = rec.errors
